@@ -30,47 +30,47 @@ macro_rules! forms {
     ($A:ty, $al:expr, $N:expr, $W:expr, $c:ident;
      $range:ident $incl:ident $to:ident $toincl:ident $from:ident $full:ident $nest:ident $oob:ident $oobi:ident $oobincl:ident $oobfrom:ident) => {
         harnesses_inner! {
-            fn $range [4] {
+            fn $range [10] {
                 let w = any_words::<{ $W }>();
                 let s = arr::<$A, { $N }, { $W }>(w);
                 let (a, b) = (any_usize(), any_usize());
                 assume(a <= b && b <= $N);
                 check_sub::<$A>(&$al, &w, &s[a..b], a, b - a);
             }
-            fn $incl [4] {
+            fn $incl [10] {
                 let w = any_words::<{ $W }>();
                 let s = arr::<$A, { $N }, { $W }>(w);
                 let (a, b) = (any_usize(), any_usize());
                 assume(b < $N && a <= b + 1);
                 check_sub::<$A>(&$al, &w, &s[a..=b], a, b + 1 - a);
             }
-            fn $to [4] {
+            fn $to [10] {
                 let w = any_words::<{ $W }>();
                 let s = arr::<$A, { $N }, { $W }>(w);
                 let b = any_usize();
                 assume(b <= $N);
                 check_sub::<$A>(&$al, &w, &s[..b], 0, b);
             }
-            fn $toincl [4] {
+            fn $toincl [10] {
                 let w = any_words::<{ $W }>();
                 let s = arr::<$A, { $N }, { $W }>(w);
                 let b = any_usize();
                 assume(b < $N);
                 check_sub::<$A>(&$al, &w, &s[..=b], 0, b + 1);
             }
-            fn $from [4] {
+            fn $from [10] {
                 let w = any_words::<{ $W }>();
                 let s = arr::<$A, { $N }, { $W }>(w);
                 let a = any_usize();
                 assume(a <= $N);
                 check_sub::<$A>(&$al, &w, &s[a..], a, $N - a);
             }
-            fn $full [4] {
+            fn $full [10] {
                 let w = any_words::<{ $W }>();
                 let s = arr::<$A, { $N }, { $W }>(w);
                 check_sub::<$A>(&$al, &w, &s[..], 0, $N);
             }
-            fn $nest [4] {
+            fn $nest [10] {
                 // depth-3 re-slicing with three independent symbolic ranges
                 let w = any_words::<{ $W }>();
                 let s = arr::<$A, { $N }, { $W }>(w);
@@ -88,7 +88,7 @@ macro_rules! forms {
             }
         }
         harnesses_inner! {
-            fn $oob [4] {
+            fn $oob [10] {
                 // range ends one or two symbols past the end, or is reversed: must panic
                 let w = any_words::<{ $W }>();
                 let s = arr::<$A, { $N }, { $W }>(w);
@@ -100,7 +100,7 @@ macro_rules! forms {
                 let _ = sub.len();
                 must_not_return!("C03.oob.range_returned_a_slice");
             }
-            fn $oobi [4] {
+            fn $oobi [10] {
                 // single index / nth at len and len+1 must panic; get returns None
                 let w = any_words::<{ $W }>();
                 let s = arr::<$A, { $N }, { $W }>(w);
@@ -119,7 +119,7 @@ macro_rules! forms {
                 }
                 must_not_return!("C03.oob.index_returned");
             }
-            fn $oobincl [4] {
+            fn $oobincl [10] {
                 let w = any_words::<{ $W }>();
                 let s = arr::<$A, { $N }, { $W }>(w);
                 let (a, b) = (any_usize(), any_usize());
@@ -136,7 +136,7 @@ macro_rules! forms {
                 }
                 must_not_return!("C03.oob.inclusive_range_returned_a_slice");
             }
-            fn $oobfrom [4] {
+            fn $oobfrom [10] {
                 let w = any_words::<{ $W }>();
                 let s = arr::<$A, { $N }, { $W }>(w);
                 let a = any_usize();
